@@ -543,7 +543,7 @@ def run(ctx):
     for i, py in enumerate(pys):
         if impl[i] is None or (impl[i] and impl[i][0] == -997):
             log = logs[i] or ''
-            m = re.search(r'AddressSanitizer: ([a-z-]+).*?\n(?:.*\n)*?\s+#0 \S+ in (\w+)', log)
+            m = re.search(r'AddressSanitizer: ([a-z-]+)[^\n]*\n(?:[^\n]*\n){0,3}?\s*#0 \S+ in (\w+)', log)
             if py.get('asan') and m:
                 key = 'asan:%s:%s:%d-coefficient-expansion' % (m.group(2), m.group(1), py['nb'])
                 text = 'AddressSanitizer %s in %s: hermiteCondExpElement(y, 0, psi) with %d coefficient(s)' % (m.group(1), m.group(2), py['nb'])
@@ -607,7 +607,10 @@ def run_resilient(ctx, exe, name, cases, env=None):
         rc, out = run_impl(ctx, exe, cf, env=env)
         for k, r in enumerate(out): res[start + k] = r
         if len(out) >= len(cases) - start: break
-        try: logs[start + len(out)] = open(cf + '.impl.log', errors='replace').read()[-6000:]
+        try:
+            lg = open(cf + '.impl.log', errors='replace').read()
+            k = lg.find('ERROR: AddressSanitizer')
+            logs[start + len(out)] = lg[k:k + 6000] if k >= 0 else lg[-3000:]
         except OSError: logs[start + len(out)] = ''
         start += len(out) + 1
     return res, logs
